@@ -34,7 +34,7 @@ func c08Probes(h string) []fsx.Op {
 	return []fsx.Op{
 		{K: "GETATTR", H: h}, {K: "SETATTR", H: h, NoSize: true, Mtime: 777}, {K: "SETATTR", H: h, NoSize: true, Perm: 1}, {K: "SETATTR", H: h, NoSize: true, Perm: 6}, {K: "SETATTR", H: h, NoSize: true, STime: 3},
 		{K: "SETATTR", H: h, NoSize: true}, {K: "SETATTR", H: h, Size: 3}, {K: "LOOKUP", H: h, N: "a"}, {K: "LOOKUP", H: h, N: "."}, {K: "ACCESS", H: h},
-		{K: "READLINK", H: h}, {K: "READ", H: h, Off: 0, Cnt: 100}, {K: "WRITE", H: h, Off: 0, Cnt: 5, Pat: 9, Stable: 2},
+		{K: "READLINK", H: h}, {K: "READ", H: h, Off: 0, Cnt: 100}, {K: "WRITE", H: h, Off: 0, Cnt: 5, Pat: 9, Stable: 2}, {K: "WRITE", H: h, Off: 0, Cnt: 0, Len: -1, Pat: 9, Stable: 2}, {K: "WRITE", H: h, Off: 0, Cnt: 0, Len: -1, Pat: 9, Stable: 0}, {K: "READ", H: h, Off: 0, Cnt: 0},
 		{K: "CREATE", H: h, N: "probe-c", As: "_"}, {K: "MKDIR", H: h, N: "probe-m", As: "_"}, {K: "SYMLINK", H: h, N: "probe-s", Target: "t", As: "_"},
 		{K: "REMOVE", H: h, N: "probe-c"}, {K: "RMDIR", H: h, N: "probe-m"}, {K: "REMOVE", H: h, N: "probe-s"},
 		{K: "RENAME", H: h, N: "a", H2: "root", N2: "probe-r1"},         // dead/live handle as source directory
